@@ -105,6 +105,7 @@ def noteOp (st : St) (op : Op) : St :=
   match op with
   | .start d =>
     if d.dbrps.isEmpty then addBr st "start-no-dbrps" else
+    if st.running.contains d.id then addBr st "start-executing-refused" else
     let st := addBr st (if st.everStarted.contains d.id then "start-again" else "start-first")
     let st := if d.keys.eraseDups.length < d.keys.length then addBr st "start-duplicate-keys" else st
     let st := if d.froms.any (·.name == "") && d.froms.any (·.name != "") then addBr st "start-exact+wild" else st
@@ -113,6 +114,7 @@ def noteOp (st : St) (op : Op) : St :=
     st
   | .startfail d =>
     if d.dbrps.isEmpty then addBr st "start-no-dbrps" else
+    if st.running.contains d.id then addBr st "start-executing-refused" else
     let st := addBr st "startfail"
     if d.keys.any (fun k => !(st.model.forks k).isEmpty) then addBr st "startfail-on-shared-key" else st
   | .stop id =>
@@ -125,8 +127,9 @@ def noteOp (st : St) (op : Op) : St :=
 
 def expectObs (st : St) (op : Op) : String :=
   match op with
-  | .start d => if d.dbrps.isEmpty then "err:nodbrp" else "ok"
-  | .startfail d => if d.dbrps.isEmpty then "err:nodbrp" else "err:snapshot"
+  | .start d => if d.dbrps.isEmpty then "err:nodbrp" else if (st.model.tasks d.id).isSome then "err:executing" else "ok"
+  | .startfail d =>
+    if d.dbrps.isEmpty then "err:nodbrp" else if (st.model.tasks d.id).isSome then "err:executing" else "err:snapshot"
   | _ => if st.model.sentOnClosed then "panic" else "ok"
 
 def judge (_id : String) (lines : Array String) : Verdict := Id.run do
@@ -151,25 +154,24 @@ def judge (_id : String) (lines : Array String) : Verdict := Id.run do
     | ["close"] =>
       if st.hung.isNone then st := { st with hung := some s!"TaskMaster.Close observed {" ".intercalate obs}" }
     | ["quiesce"] =>
-      if let some h := st.hung then return .mismatch s!"the real code hangs: {h}"
+      if let some h := st.hung then return .mismatch s!"implementation and model differ: {h}"
       if obs != ["0"] then return .mismatch s!"the harness timed out waiting for the pipeline: {" ".intercalate obs}"
     | _ =>
       match parseOp opT with
       | some op =>
-        -- well-formedness of the generated history
-        match op with
-        | .start d => if !d.dbrps.isEmpty && st.running.contains d.id then return .badop s!"start of an executing id: {l}"
-        | .startfail d => if st.running.contains d.id then return .badop s!"start of an executing id: {l}"
-        | _ => pure ()
         st := noteOp st op
         let model' := step st.model op
-        let want := expectObs { st with model := model' } op
+        let want := match op with
+          | .start _ | .startfail _ => expectObs st op            -- decided on the state before the call
+          | _ => expectObs { st with model := model' } op
         if obs == ["hang"] then
           -- the call never returned: keep judging what the sinks recorded (a loss is a SPECFAIL), report the hang otherwise
           if st.hung.isNone then st := { st with hung := some s!"{" ".intercalate (opT.take 2)} did not return" }
-        else if obs != [want] then return .mismatch s!"{" ".intercalate opT}: model {want} observed {" ".intercalate obs}"
+        else if obs != [want] then
+          -- judged after the sinks (a violated spec has priority over a broken tie)
+          if st.hung.isNone then st := { st with hung := some s!"{" ".intercalate (opT.take 2)}: model {want} observed {" ".intercalate obs}" }
         let running := match op with
-          | .start d => if d.dbrps.isEmpty then st.running else d.id :: st.running
+          | .start d => if d.dbrps.isEmpty || st.running.contains d.id then st.running else d.id :: st.running
           | .startfail _ => st.running
           | .stop id => st.running.filter (· != id)
           | .delete id => st.running.filter (· != id)
@@ -180,7 +182,7 @@ def judge (_id : String) (lines : Array String) : Verdict := Id.run do
         st := { st with model := model', hist := op :: st.hist, running := running, everStarted := ever }
       | none => return .badop l
   -- non-trivial: something was delivered AND (the two-key case occurred, or another task was started/stopped while one was running)
-  if let some h := st.hung then return .mismatch s!"the real code hangs: {h}"
+  if let some h := st.hung then return .mismatch s!"implementation and model differ: {h}"
   let nt := st.anyDelivered && (st.sawDedupe || (st.sawTwoRunning && st.otherOpBetween))
   return .ok nt st.branches.reverse
 
